@@ -247,7 +247,8 @@ class Ctx:
         d = os.path.join(self.root, "replays", self.pid)
         os.makedirs(d, exist_ok=True)
         k = len(os.listdir(d))
-        path = os.path.join(d, "%s_%03d_%s_%s.json" % (self.pid, k, rec.get("fn", "x"), v[0]))
+        safe = re.sub(r"[^A-Za-z0-9_.\[\]~@-]", "_", "%s_%s" % (rec.get("fn", "x"), v[0]))
+        path = os.path.join(d, "%s_%03d_%s.json" % (self.pid, k, safe))
         with open(path, "w") as f:
             json.dump(dict(property=self.pid, verdict=list(v), job=job, record=rec), f)
         return path
